@@ -16,3 +16,12 @@ package memview
 //@   ensures[error-iff-malformed] (result1 != nil) == !addr_wellformed(s)
 //@   ensures[is-an-address] result1 == nil ==> holds_addr(result0)
 //@   ensures[value] result1 == nil ==> ifaceval(result0) == addr_value(s)
+
+// Property C24: the memory view of a memory state of the corpus, the cursor on
+// any of its rows, any height of the height set (at least MinLines).
+
+//@ func (*memoryView).Print
+//@   enum ms in MEMSTATES
+//@   requires cursor_anywhere() && height_at_least(5)
+//@   ensures[fits] result == nil && out_lines() <= n
+//@   ensures[whole-lines] out_whole_lines()
